@@ -1,6 +1,6 @@
 (* Completion of the coin table of Proofs/RandomizedC.v: the removeRandomCiphers row and the
    statement that every row satisfies [coin_ok]. *)
-From UV Require Import Base.Common Model.Prng Proofs.PrngP Model.Randomized Proofs.RandomizedP Proofs.RandomizedW Proofs.RandomizedS Proofs.RandomizedC.
+From UV Require Import Base.Common Model.Prng Proofs.PrngP Model.Randomized Proofs.RandomizedP Proofs.RandomizedW Proofs.RandomizedS Proofs.RandomizedC Model.RandomizedId.
 From Coq Require Import QArith Permutation ZifyBool ZifyNat ZifyN.
 Open Scope N_scope.
 
@@ -114,3 +114,10 @@ Qed.
 
 Lemma coins_all rnd : ieee_laws rnd -> forall c, In c coins -> coin_ok rnd c.
 Proof. intros L. apply Forall_forall. apply coins_ok. exact L. Qed.
+
+(* two builds from one ClientHelloID: the id comes back unchanged and the second build gives the first one's result *)
+Lemma build_twice rnd fuel tb id sn np s salted :
+  let '(r1, id1) := build rnd fuel tb id sn np s salted in
+  let '(r2, id2) := build rnd fuel tb id1 sn np s salted in
+  r1 = r2 /\ id1 = id /\ id2 = id.
+Proof. cbn. auto. Qed.
